@@ -106,7 +106,8 @@ def context_of(case: dict[str, Any]) -> OptModelTransforms | None:
         return None
     c_n = case["C"]
     return OptModelTransforms(
-        variables=VariableScaler(np.array(case["vscale"]), np.array(case["voff"])) if "v" in case["transforms"] else None,
+        variables=VariableScaler(np.array(case["vscale"]), None if case.get("no_offsets") else np.array(case["voff"]))
+        if "v" in case["transforms"] else None,
         objectives=ObjectiveScaler(case["oscale"]) if "o" in case["transforms"] else None,
         nonlinear_constraints=ConstraintScaler(case["cscale"]) if "c" in case["transforms"] and c_n else None,
     )
@@ -130,7 +131,7 @@ def run_case(case: dict[str, Any]) -> dict[str, Any]:  # noqa: C901, PLR0912, PL
     # ---- canonical form
     v = cfgd["variables"]
     vs = np.ones(n) if ctx is None or ctx.variables is None else np.array(case["vscale"], dtype=np.float64)
-    vo = np.zeros(n) if ctx is None or ctx.variables is None else np.array(case["voff"], dtype=np.float64)
+    vo = np.zeros(n) if ctx is None or ctx.variables is None or case.get("no_offsets") else np.array(case["voff"], dtype=np.float64)
     for name, default in (("lower_bounds", -np.inf), ("upper_bounds", np.inf)):
         exp = (arr(v.get(name, default), n) - vo) / vs
         got = getattr(cfg.variables, name)
@@ -300,13 +301,13 @@ def hypothesis_shard(item: dict[str, Any]) -> Collector:
         if s_n > 1 or draw(st.booleans()):
             config["samplers"] = [{"method": draw(st.sampled_from(["norm", "scipy/default", "sobol"])), "shared": draw(st.booleans()),
                                    "options": draw(st.sampled_from([{}, {"loc": 0.5}]))} for _ in range(s_n)]
-        tr = draw(st.sampled_from(["", "", "", "v", "voc", "c"]))
-        case: dict[str, Any] = {"n": n, "K": k_n, "R": r_n, "L": l_n, "C": c_n, "config": config, "transforms": tr,
+        tr = draw(st.sampled_from(["", "", "", "v", "voc", "c", "v"]))
+        case: dict[str, Any] = {"no_offsets": draw(st.booleans()), "n": n, "K": k_n, "R": r_n, "L": l_n, "C": c_n, "config": config, "transforms": tr,
                                 "vscale": [draw(st.sampled_from([0.5, 2.0, 4.0])) for _ in range(n)],
                                 "voff": [draw(st.sampled_from([0.0, 0.25])) for _ in range(n)],
                                 "oscale": [draw(st.sampled_from([2.0, 0.5])) for _ in range(k_n)],
                                 "cscale": [draw(st.sampled_from([4.0, 0.25])) for _ in range(c_n)]}
-        inv = draw(st.integers(0, 9))
+        inv = draw(st.integers(0, 15))
         if inv == 0:
             case["invalid"] = "variable lower bound above upper bound"
             config["variables"]["lower_bounds"] = [9.0] * n
@@ -325,6 +326,16 @@ def hypothesis_shard(item: dict[str, Any]) -> Collector:
         elif inv == 4 and n > 1:  # noqa: PLR2004
             case["invalid"] = "magnitudes of wrong length"
             config["gradient"]["perturbation_magnitudes"] = [0.1] * (n + 1)
+        elif inv == 5 and l_n and n > 1:  # noqa: PLR2004
+            case["invalid"] = "linear coefficient matrix with a single column (broadcastable, but not n columns)"
+            config["linear_constraints"]["coefficients"] = [[1.0] for _ in range(l_n)]
+        elif inv == 6 and n > 1:  # noqa: PLR2004
+            case["invalid"] = "boundary types of wrong length"
+            config["gradient"]["boundary_types"] = [1] * (n + 1)
+        elif inv == 7 and c_n > 1:  # noqa: PLR2004
+            case["invalid"] = "non-linear bounds that cannot be broadcast together"
+            config["nonlinear_constraints"]["lower_bounds"] = [0.0] * (c_n + 1)
+            config["nonlinear_constraints"]["upper_bounds"] = [1.0] * c_n
         return case
 
     def body(case: dict[str, Any]) -> None:
